@@ -64,6 +64,14 @@ class SDate(Sym):
         return 'SDate(%s,%s,%s)' % (self.y, self.m, self.d)
 
 
+class SDateTime(SDate):
+    """what dateutil's parser returns (a datetime at midnight); .date() gives the calendar day"""
+    __slots__ = ()
+
+    def date(self):
+        return SDate(self.y, self.m, self.d)
+
+
 def s_date(y, m, d):
     """shadow of datetime.date(y, m, d): ValueError on an invalid calendar date"""
     if not any(isinstance(v, Sym) for v in (y, m, d)):
@@ -83,11 +91,13 @@ class SIsoStr(str):
         return o
 
 
-def s_parse_date(s):
+def s_parse_date(s, *a, **k):
     """ASSUMED CONTRACT dateutil.parser.parse(iso text): a datetime with the same y/m/d"""
+    if a or k:
+        raise OutOfSubset('dateutil.parser.parse called with options %r: outside the assumed contract' % (sorted(k),))
     ctx().assumptions.add('dateutil.parser.parse(ISO text) returns the same calendar day (assumed contract, cross-checked)')
     if isinstance(s, SIsoStr):
-        return SDate(*s.ymd)
+        return SDateTime(*s.ymd)
     if isinstance(s, Sym):
         raise OutOfSubset('parse_date of %s' % type(s).__name__)
     from dateutil.parser import parse
